@@ -69,21 +69,22 @@ type state struct {
 	known   map[string]bool
 	replays string
 
-	evaluations int64
-	nontrivial  int64
-	distinct    map[uint64]struct{}
-	capped      bool
-	classes     map[string]int64
-	kinds       map[string]*kindStats
-	samples     map[string][]any
-	sampleOrder []string
-	excluded    map[string]int64
-	knownLines  []string
-	notes       []string
-	exhaustive  map[string]bool
-	failures    map[string]int // kind -> size of smallest recorded failing case
-	failFiles   []string
-	start       time.Time
+	evaluations  int64
+	nontrivial   int64
+	distinct     map[uint64]struct{}
+	enumDistinct int64
+	capped       bool
+	classes      map[string]int64
+	kinds        map[string]*kindStats
+	samples      map[string][]any
+	sampleOrder  []string
+	excluded     map[string]int64
+	knownLines   []string
+	notes        []string
+	exhaustive   map[string]bool
+	failures     map[string]int // kind -> size of smallest recorded failing case
+	failFiles    []string
+	start        time.Time
 
 	cur []byte // mmap of the case-in-flight file
 }
@@ -254,6 +255,22 @@ func NonTrivial(kind string, key uint64) {
 	} else {
 		st.capped = true
 	}
+	st.mu.Unlock()
+}
+
+// NonTrivialN records n non-trivial cases that are distinct by construction
+// (an enumeration that visits every point once); they are counted without
+// being hashed.
+func NonTrivialN(kind string, n int64) {
+	st.mu.Lock()
+	st.nontrivial += n
+	st.enumDistinct += n
+	k := st.kinds[kind]
+	if k == nil {
+		k = &kindStats{}
+		st.kinds[kind] = k
+	}
+	k.NonTrivial += n
 	st.mu.Unlock()
 }
 
@@ -504,22 +521,23 @@ func CheckCase[C any](t testing.TB, kind string, c C, check func(C) error) bool 
 }
 
 type statsFile struct {
-	Property    string                `json:"property"`
-	Seed        int64                 `json:"seed"`
-	Shard       int                   `json:"shard"`
-	Evaluations int64                 `json:"evaluations"`
-	NonTrivial  int64                 `json:"nontrivial_total"`
-	Distinct    int                   `json:"distinct_nontrivial"`
-	Capped      bool                  `json:"distinct_capped"`
-	Classes     map[string]int64      `json:"classes"`
-	Kinds       map[string]*kindStats `json:"kinds"`
-	Samples     []sampleEntry         `json:"samples"`
-	Excluded    map[string]int64      `json:"excluded"`
-	Known       []string              `json:"known_findings"`
-	Notes       []string              `json:"notes"`
-	Exhaustive  map[string]bool       `json:"exhaustive"`
-	FailFiles   []string              `json:"fail_files"`
-	WallS       float64               `json:"wall_s"`
+	Property     string                `json:"property"`
+	Seed         int64                 `json:"seed"`
+	Shard        int                   `json:"shard"`
+	Evaluations  int64                 `json:"evaluations"`
+	NonTrivial   int64                 `json:"nontrivial_total"`
+	Distinct     int64                 `json:"distinct_nontrivial"`
+	EnumDistinct int64                 `json:"distinct_by_enumeration"`
+	Capped       bool                  `json:"distinct_capped"`
+	Classes      map[string]int64      `json:"classes"`
+	Kinds        map[string]*kindStats `json:"kinds"`
+	Samples      []sampleEntry         `json:"samples"`
+	Excluded     map[string]int64      `json:"excluded"`
+	Known        []string              `json:"known_findings"`
+	Notes        []string              `json:"notes"`
+	Exhaustive   map[string]bool       `json:"exhaustive"`
+	FailFiles    []string              `json:"fail_files"`
+	WallS        float64               `json:"wall_s"`
 }
 
 type sampleEntry struct {
@@ -537,7 +555,7 @@ func writeStats() {
 	sf := statsFile{
 		Property: st.id, Seed: st.seed, Shard: st.shard,
 		Evaluations: st.evaluations, NonTrivial: st.nontrivial,
-		Distinct: len(st.distinct), Capped: st.capped,
+		Distinct: int64(len(st.distinct)) + st.enumDistinct, EnumDistinct: st.enumDistinct, Capped: st.capped,
 		Classes: st.classes, Kinds: st.kinds, Excluded: st.excluded,
 		Known: st.knownLines, Notes: st.notes, Exhaustive: st.exhaustive,
 		FailFiles: st.failFiles, WallS: time.Since(st.start).Seconds(),
